@@ -132,4 +132,44 @@ impl<V, BS: Blockstore> Array<V, BS> {
     { unimplemented!() }
 }
 
+
+// ---- runtime MapMap: a two-level HAMT, viewed as a map from key pairs ----------------------------------
+#[verifier::external_body]
+#[verifier::accept_recursive_types(BS)]
+#[verifier::reject_recursive_types(V)]
+#[verifier::reject_recursive_types(K1)]
+#[verifier::reject_recursive_types(K2)]
+pub struct MapMap<BS, V, K1, K2> { p: PhantomData<(BS, V, K1, K2)> }
+impl<BS: Blockstore, V, K1, K2> MapMap<BS, V, K1, K2> {
+    pub uninterp spec fn view(&self) -> Map<(K1, K2), V>;
+    #[verifier::external_body]
+    pub fn get(&mut self, k1: K1, k2: K2) -> (r: Result<Option<&V>, ActorError>)
+        ensures
+            final(self).view() == old(self).view(),
+            r.is_ok() ==> (r->Ok_0.is_some() <==> old(self).view().dom().contains((k1, k2))),
+            r.is_ok() && r->Ok_0.is_some() ==> *(r->Ok_0->Some_0) == old(self).view()[(k1, k2)],
+    { unimplemented!() }
+    #[verifier::external_body]
+    pub fn put(&mut self, k1: K1, k2: K2, v: V) -> (r: Result<(), ActorError>)
+        ensures
+            r.is_ok() ==> final(self).view() == old(self).view().insert((k1, k2), v),
+            r.is_err() ==> final(self).view() == old(self).view(),
+    { unimplemented!() }
+    #[verifier::external_body]
+    pub fn put_if_absent(&mut self, k1: K1, k2: K2, v: V) -> (r: Result<bool, ActorError>)
+        ensures
+            r.is_ok() ==> r->Ok_0 == !old(self).view().dom().contains((k1, k2)),
+            r.is_ok() && r->Ok_0 ==> final(self).view() == old(self).view().insert((k1, k2), v),
+            r.is_ok() && !r->Ok_0 ==> final(self).view() == old(self).view(),
+            r.is_err() ==> final(self).view() == old(self).view(),
+    { unimplemented!() }
+    #[verifier::external_body]
+    pub fn remove(&mut self, k1: K1, k2: K2) -> (r: Result<Option<V>, ActorError>)
+        ensures
+            r.is_ok() ==> final(self).view() == old(self).view().remove((k1, k2)),
+            r.is_ok() ==> (r->Ok_0.is_some() <==> old(self).view().dom().contains((k1, k2))),
+            r.is_ok() && r->Ok_0.is_some() ==> r->Ok_0->Some_0 == old(self).view()[(k1, k2)],
+            r.is_err() ==> final(self).view() == old(self).view(),
+    { unimplemented!() }
+}
 } // verus!
